@@ -170,6 +170,24 @@ def run(chk: lib.Check):
                 check_lookups(chk, model, A, ids_to_check, label, spec0, list(hist_desc))
                 if si % 5 == 4 or si == n_steps - 1:
                     check_search(chk, model, A, rng.sample(types_present, min(8, len(types_present))), label, spec0, list(hist_desc))
+            # every history ends with a save (namespace update, possible root replacement) before the final comparison
+            try:
+                model.save()
+                hist_desc.append("save: save() -> ok")
+            except Exception as ex:  # noqa: BLE001
+                hist_desc.append(f"save: save() -> {type(ex).__name__}")
+            for p in tracked:
+                tree = loader.trees[p]
+                after = A.nodes(tree)
+                det, att = graph.diff_nodes(before[p], after)
+                bmap = {n[0]: n for n in before[p]}
+                idc, xtc, hrs = A.index(tree)
+                samp_ids = sorted({u for h in det for u in bmap[h][4]} | {u for n in att for u in n[4]} | set(rng.sample(sorted(idc), min(15, len(idc)))))
+                samp_hs = sorted(set(det) | {n[0] for n in att} | set(rng.sample(sorted(xtc), min(15, len(xtc)))))
+                ops = ([[1, det]] if det else []) + ([[0, [graph.node_val(n) for n in att]]] if att else [])
+                steps[p].append([ops, samp_ids, samp_hs, sorted(hrs)])
+                expect[p].append([[enc_idc(idc, u) for u in samp_ids], [xtc.get(h) for h in samp_hs], [hrs.get(r) for r in sorted(hrs)], len(idc)])
+                before[p] = after
             # final: everything, every fragment
             check_lookups(chk, model, A, sorted(set(all_ids0) | ever_touched), "end of history", spec0, list(hist_desc))
             check_search(chk, model, A, types_present, "end of history", spec0, list(hist_desc))
